@@ -4,13 +4,13 @@
         fmt 4 SRT:      payload [[timing line; text] ...] (non-empty)    fmt 5 SCC:    payload body
         [0; pre; post] DFXP skeleton pre ++ "</tt>" ++ post             [3; rest] SAMI skeleton "<sami" ++ rest
    2003 [fmt; [[ [start; end; [node ...]] ...] ...]]  node = [0; text] | [1] | [2; start?; italics; underline; bold]
-        -> [document written by the writer model of model/OwnWrite.v (fmt 1 MicroDVD, 2 WebVTT, 4 SRT);
+        -> [document written by the writer model of model/OwnWrite.v (fmt 1 MicroDVD, 2 WebVTT, 4 SRT, 5 SCC: [-2] when the writer model raises);
             caption set in the domain of the own-output theorem that starts from the text nodes (spec/SpecOwnNodes.v)?;
             detect_format of the model on that document]                                                          *)
 From Coq Require Import List ZArith QArith Bool.
 From PV Require Import lib.Sx lib.Str lib.Result.
 From PV Require Import model.Generated model.Detect spec.SpecDetect spec.SpecOwn extract.OrCommon.
-From PV Require Import model.OwnWrite spec.SpecOwnNodes.
+From PV Require Import model.OwnWrite spec.SpecOwnNodes model.OwnWriteScc model.TimeRead.
 Import ListNotations.
 Open Scope Z_scope.
 
@@ -88,6 +88,28 @@ Definition req_c20_write (arg : sx) : sx :=
           | 1 => out (mdvd_write ls) (mdvd_dom ls)
           | 2 => out (vtt_write ls) true
           | 4 => out (srt_write ls) (srt_dom ls)
+          | 5 => match scc_write ls with Ok doc => out doc true | Err _ => SL [SI (-2)] end
+          | _ => bad
+          end
+      | None => bad
+      end
+  | _ => bad
+  end.
+
+(* 2004 [fmt; langs] "that reader reads the document": [caption set in the read-back domain?; the captions the reader must
+        return, one per written cue [[start; end; [text lines]] ...]; the reader model of C01 on the writer model's
+        document]     fmt 1 MicroDVD, 4 SRT *)
+Definition of_rcap (r : Z * Z * list str) : sx := SL [SI (fst (fst r)); SI (snd (fst r)); of_list SS (snd r)].
+Definition req_c20_read (arg : sx) : sx :=
+  match arg with
+  | SL [SI fmt; langs] =>
+      match sx_listof (sx_listof sx_ocap) langs with
+      | Some ls =>
+          match fmt with
+          | 1 => SL [of_bool (mdvd_read_dom ls); of_list of_rcap (map mdvd_expected_cap (concat ls));
+                     of_result (of_list of_rcap) (mdvd_read (mdvd_write ls))]
+          | 4 => SL [of_bool (srt_read_dom ls); of_list of_rcap (map srt_expected_cap (srt_merge (hd [] ls)));
+                     of_result (of_list of_rcap) (srt_read (srt_write ls))]
           | _ => bad
           end
       | None => bad
@@ -101,5 +123,6 @@ Definition dispatch (code : Z) (arg : sx) : option sx :=
   | 2001 => Some (req_c20_ok arg)
   | 2002 => Some (req_c20_shape arg)
   | 2003 => Some (req_c20_write arg)
+  | 2004 => Some (req_c20_read arg)
   | _ => None
   end.
